@@ -79,7 +79,7 @@ def eval_point(pt, R):
     ref = np.stack([rdft.dft(tapers[:, j] * x, nf) for j in range(K)], axis=0)
     R.check(Sk.shape == ref.shape and close(Sk, ref, 1e-9, 0.0), 'eigenspectra', feats, pt, Sk, ref, 'eigenspectrum j != NFFT-point DFT of taper_j * data', outs=(Sk,),
             err=relerr(Sk, ref) if Sk.shape == ref.shape else None)
-    R.check(ev.shape == lam.shape and np.array_equal(ev, lam), 'eigenvalues', feats, pt, ev, lam, 'returned eigenvalues are not the taper concentration ratios')
+    R.check(ev.shape == lam.shape and close(ev, lam, 1e-12, 0.0), 'eigenvalues', feats, pt, ev, lam, 'returned eigenvalues are not the taper concentration ratios')
     sig2 = float(np.real(np.vdot(x, x))) / N
     P = np.abs(ref) ** 2               # (K, NFFT)
     if meth == 'unity':
@@ -144,7 +144,7 @@ def eval_point(pt, R):
     R.calls()
     try:
         Sk2, w2, ev2 = spectrum.pmtm(x, e=lam, v=tapers, NFFT=nf, method=meth)
-        same = np.array_equal(np.asarray(Sk2), Sk) and np.array_equal(np.asarray(w2), w) and np.array_equal(np.asarray(ev2), ev)
+        same = close(np.asarray(Sk2), Sk, 1e-12, 0.0) and close(np.asarray(w2), w, 1e-12, 0.0) and close(np.asarray(ev2), ev, 1e-12, 0.0)
         R.check(same, 'precomputed', feats, pt, None, None, 'supplying precomputed tapers (e=, v=) changes the result')
     except Exception as e:
         R.viol('precomputed', dict(feats, exc=type(e).__name__), pt, repr(e), None, 'pmtm with precomputed tapers raised')
